@@ -44,7 +44,9 @@ RULE_ADDED = (
               "er the dialogue with the device had begun is not 'accepted or refused silently' "
               'even where the documents leave acceptance open (six known findings of the parse-'
               'late family, sub-classified so that a brother whose hash cannot be computed stay'
-              's a violation). ')
+              's a violation). '
+              ' '
+              'Round 17: key ids with elements of 4300, 4301, 5000, 100000 decimal digits. ')
 RULE = RULE + " " + RULE_ADDED.strip()
 ASSUMPTIONS = [
     "the reference classifier (pv/oracle/docs_protocol.py) is a reading of docs/protocol.md and "
@@ -66,7 +68,12 @@ KEYIDS = ["m", "m/", "m/44'/0'/0'/0", "m/44'/0'/0'/0/0/0", "m/44'/0'/0'/0/0'", "
           "m/44h/0'/0'/0/0", " m/44'/0'/0'/0/0", "m/44'/0'/0'/0/0 ", "m/2147483648/0/0/0/0",
           "m/2147483647'/0'/0'/0/0", "m/44''/0'/0'/0/0", "m/44'/0'/0'/0/-0", "m/44'/0'/0'/0/0/",
           "m/044'/0'/0'/0/0", "m/٤٤'/0'/0'/0/0", "m/44'/2'/0'/0/0", "m//0/0/0/0",
-          "44'/0'/0'/0/0", "m/44'/0'/0'/0/0\n", "m/4 4'/0'/0'/0/0", "m/+44'/0'/0'/0/0"]
+          "44'/0'/0'/0/0", "m/44'/0'/0'/0/0\n", "m/4 4'/0'/0'/0/0", "m/+44'/0'/0'/0/0",
+          # (elements of more decimal digits than the interpreter converts without being told:
+          # 4300 is CPython's limit for int(str); zeros, a huge number, in any position)
+          "m/44'/0'/0'/0/" + "0" * 4300, "m/44'/0'/0'/0/" + "0" * 4301,
+          "m/44'/0'/0'/0/" + "9" * 5000, "m/" + "1" * 4301 + "'/0'/0'/0/0",
+          "m/44'/0'/0'/0/" + "0" * 100000]
 
 
 def string_variants(leaf):
